@@ -80,7 +80,9 @@ def main():
                 with ThreadPoolExecutor(max_workers=int(os.environ.get("SELFTEST_CHECK_JOBS", "6"))) as ex:
                     done = list(ex.map(lambda pid: (pid, sh("python3", os.path.join(VERIF, "engine", "check.py"), pid, tier, env=env)), todo))
                 for pid, c in done:
-                    if c.returncode == 1:
+                    if c.returncode == 1 and "VIOLATION property=" not in c.stdout:
+                        fired[pid] = ["<check crashed: %s>" % (c.stdout.strip().splitlines()[-1:])]
+                    elif c.returncode == 1:
                         rep = json.load(open(os.path.join(out, "reports", "%s-%s.json" % (pid, tier))))
                         fired[pid] = sorted({"%s:%s" % (v["rule"], v["key"]) for v in rep["violations"]})
                     elif c.returncode != 0:
